@@ -445,7 +445,15 @@ impl PathRouter {
         }
 
         for (path, routes) in path2method2component_id.into_iter() {
-            for method in METHODS {
+            // The well-known methods, plus every non-standard method that appears in a guard
+            // for this path (e.g. `QUERY`): two handlers can conflict on those too.
+            let mut methods: IndexSet<&str> = METHODS.iter().copied().collect();
+            for &(guard, _) in &routes {
+                if let MethodGuard::Some(method_guards) = guard {
+                    methods.extend(method_guards.iter().map(|m| m.as_str()));
+                }
+            }
+            for method in methods {
                 let mut relevant_handler_ids = IndexSet::new();
                 for &(guard, &id) in &routes {
                     match guard {
